@@ -26,7 +26,8 @@ RULE = ('package graphs with 1-6 packages: chains, shared dependencies (diamonds
 ASSUMPTIONS = [
     'strings are compared by decoded value (C06 owns spelling); package order inside the table is not prescribed',
     'any exception or non-zero return counts as "fails the build with an error"',
-    'the same require string is never made to resolve to two different files, and one package is always required with one use_game_loop choice',
+    'the same require string is never made to resolve to two different files, and one require name is always used with one use_game_loop choice '
+    '(one file may be required under two names with different choices)',
     '`require "x"` without parentheses is not required to be supported and is not generated',
 ]
 EXHAUSTIVE = {'quick': False, 'thorough': False}
@@ -69,6 +70,22 @@ def gameloop_piece(rng):
     if form == 2:
         return b'-- test loop\nfunction ' + name + b'()\n if (btn(0)) x-=1\n for i=1,3 do print(i) end\nend\n', name
     return b'function ' + name + b'(a,b) local f=function() return 1 end return f end\n', name
+
+
+def gameloop_with_neighbours(rng):
+    """-> [(text, is_game_loop_function)]: a game-loop function directly preceded by a comment and/or followed by more code on the
+    line of its closing `end`.  What is not the function definition itself belongs to the package whatever the option."""
+    name = rng.choice(GAME_LOOP)
+    before = rng.choice((b'-- harness\n', b'// loop below\n', b'--[[ block ]]\n', b'--[[ two\nlines ]]\n', b'-- a\n-- b\n', b'k_%d=1 ' % rng.randrange(9), b''))
+    fn = rng.choice((b'function ' + name + b'() end', b'function ' + name + b'()\n cls()\n if (btn(1)) x+=1\nend',
+                     b'function ' + name + b'() local q=function() end end'))
+    after = rng.choice((b' m.ready=true\n', b' vec_%d={}\n' % rng.randrange(9), b' print("after") -- note\n', b' local z9=2\n', b'\n'))
+    out = []
+    if before:
+        out.append((before, False))
+    out.append((fn, True))
+    out.append((after, False))
+    return out, name
 
 
 def lua_string(rng, name):
@@ -191,11 +208,16 @@ def build_graph(rng, root):
             slots.insert(rng.randint(0, len(slots)), (txt, True))
         ngl = rng.choice((0, 1, 1, 2))
         for g in range(ngl):
-            txt, nm = gameloop_piece(rng)
             where = rng.choice(('first', 'middle', 'last'))
             feats.add('gameloop_' + where)
             pos = 0 if where == 'first' else len(slots) if where == 'last' else rng.randint(0, len(slots))
-            slots.insert(pos, (txt, k.opt))     # kept only with use_game_loop
+            if rng.random() < 0.4:
+                parts, nm = gameloop_with_neighbours(rng)
+                slots.insert(pos, ([(t, 'gameloop' if is_fn else True) for t, is_fn in parts], 'group'))
+                feats.add('gameloop_with_comment_before_or_code_after')
+            else:
+                txt, nm = gameloop_piece(rng)
+                slots.insert(pos, (txt, 'gameloop'))     # kept only with use_game_loop
             if not k.opt:
                 feats.add('gameloop_stripped')
             else:
@@ -211,6 +233,10 @@ def build_graph(rng, root):
         if rng.random() < 0.4:
             slots.append((rng.choice((b'return {v=%d}\n' % j, b'return pkg_%d\n' % j, b'return\n')), True))
             feats.add('final_return')
+        flat = []
+        for t, keep in slots:
+            flat.extend(t if keep == 'group' else [(t, keep)])
+        slots = flat
         text = b''.join(t for t, keep in slots)
         fin = rng.random()
         if fin < 0.2:
@@ -220,9 +246,13 @@ def build_graph(rng, root):
             text = text + b'-- trailing comment'
             feats.add('package_trailing_comment')
         exp = []
+        exp_other = []      # the same file embedded with the opposite use_game_loop choice (under another require name)
         for t, keep in slots:
-            if keep:
-                exp.extend(reflex.sig(reflex.lex(t)))
+            tk = reflex.sig(reflex.lex(t))
+            if keep is True or k.opt:
+                exp.extend(tk)
+            if keep is True or not k.opt:
+                exp_other.extend(tk)
         rel = os.path.join(k.file_dir if lua_path_mode == 'default' or k.file_dir == '' else 'libs', k.base + '.lua')
         if lua_path_mode != 'default' and k.file_dir == 'lib':
             feats.add('found_via_load_path')
@@ -231,6 +261,7 @@ def build_graph(rng, root):
         files[rel] = text
         k.rel = rel
         k.exp = exp
+        k.exp_other = exp_other
         for d, nm in deps:
             expected.setdefault(nm, pkgs[d])
             emit(d)
@@ -243,10 +274,27 @@ def build_graph(rng, root):
         feats.add('require_form:' + form)
         main_slots.insert(rng.randint(0, len(main_slots)), (txt, True))
         emit(j)
+    if lua_path_mode == 'default' and rng.random() < 0.35:
+        # one file under a second require name (the default load path ?;?.lua finds pkgN.lua as "pkgN" and as "pkgN.lua"), asked
+        # for with the other use_game_loop choice: two names, two packages, each stripped or not as its own require says
+        cands = [j for j in sorted(reach) if pkgs[j].file_dir == '' and pkgs[j].base.startswith('pkg')]
+        if cands:
+            j = rng.choice(cands)
+            alias = Pkg()
+            alias.opt = not pkgs[j].opt
+            alias.exp = pkgs[j].exp_other
+            nm = (pkgs[j].base + '.lua').encode()
+            expected[nm] = alias
+            txt, form = require_piece(rng, nm, alias.opt)
+            main_slots.insert(rng.randint(0, len(main_slots)), (txt, True))
+            feats.add('one_file_two_names_opposite_options')
     if rng.random() < 0.3:
         txt, nm = gameloop_piece(rng)
         main_slots.append((txt, True))    # the main program keeps its game loop
         feats.add('main_has_gameloop')
+    if rng.random() < 0.15:
+        main_slots.insert(0, (rng.choice((b'--[[ main\n  program ]]\n', b'--[==[ header\n]==]\n', b'-- title\n-- by me\n')), True))
+        feats.add('main_starts_with_comment')
     main_text = b''.join(t for t, _ in main_slots)
     if rng.random() < 0.2:
         main_text = main_text.rstrip(b'\n')
@@ -544,7 +592,7 @@ def gates(m, tier):
               'require_form:stmt', 'require_form:assign', 'require_form:local', 'require_form:field', 'require_form:callarg',
               'require_form:chain', 'require_form:nestedfn', 'require_form:in_if', 'require_form:in_else', 'require_form:in_shortif',
               'require_form:in_loop', 'require_form:in_cond', 'error:missing', 'error:noargs', 'error:threeargs', 'error:nonstring',
-              'error:badoption'):
+              'error:badoption', 'gameloop_with_comment_before_or_code_after', 'one_file_two_names_opposite_options', 'main_starts_with_comment'):
         if f.get(k, 0) < 2:
             missed.append('%s seen %d times' % (k, f.get(k, 0)))
     if mon.get('package_bodies_compared', 0) < 100:
